@@ -73,7 +73,11 @@ func New(id, level, tier string) *Run {
 	if s := os.Getenv("VERIF_SEED"); s != "" {
 		r.Seed, _ = strconv.ParseInt(s, 10, 64)
 	}
-	if f, err := os.Open(filepath.Join(Root, "known_findings.jsonl")); err == nil {
+	home := os.Getenv("VERIF_HOME")
+	if home == "" {
+		home = "/verif"
+	}
+	if f, err := os.Open(filepath.Join(home, "known_findings.jsonl")); err == nil {
 		sc := bufio.NewScanner(f)
 		sc.Buffer(make([]byte, 1<<20), 1<<20)
 		for sc.Scan() {
@@ -232,7 +236,7 @@ func (r *Run) Finish() int {
 		for i, v := range r.viol {
 			if i >= 20 {
 				if os.Getenv("VERIF_ALL") != "" {
-					fmt.Printf("  [more] %s\n", v.Msg)
+					fmt.Printf("  [more] [%s] %s\n", v.Key, v.Msg)
 					continue
 				}
 				break
@@ -242,7 +246,7 @@ func (r *Run) Finish() int {
 			os.WriteFile(p, b, 0o644)
 			paths = append(paths, p)
 			fmt.Printf("VIOLATION property=%s replay=%s\n", r.ID, p)
-			fmt.Printf("  %s\n", v.Msg)
+			fmt.Printf("  [%s] %s\n", v.Key, v.Msg)
 		}
 	}
 	keys := make([]string, 0, len(r.knownHit))
